@@ -121,7 +121,7 @@ def r3(ctx: Ctx) -> None:
         break
 
 
-@rule("C17.H1", "mechanism shared with C06: index markets are stepped after their components and record the index of the components' fundamentals for time + 1", "T5 + T7 (same rule as C06.R2)", floor=4)
+@rule("C17.H1", "mechanism shared with C06: index markets are stepped after their components and record the index of the components' fundamentals for time + 1", "T5 + T7 (same rule as C06.R2)", floor=3)
 def h1(ctx: Ctx) -> None:
     from .c06 import r2 as step_rule
 
